@@ -349,6 +349,8 @@ pub const TOKEN_CLASS_NAMES: [&str; 17] = [
 pub struct GenCfg {
     pub max_threads: usize,
     pub max_calls: usize,
+    /// allow inputs of 64 B .. 16 KiB (not under Miri, where every byte costs microseconds)
+    pub long_inputs: bool,
 }
 
 pub fn gen_string(rng: &mut Rng, enabled: &[usize]) -> String {
@@ -468,6 +470,23 @@ pub fn gen_workload(rng: &mut Rng, cfg: &GenCfg) -> Workload {
     let pool_n = 3 + rng.usize_below(14);
     let mut pool: Vec<String> = vec![];
     while pool.len() < pool_n {
+        // now and then an input whose byte length sits on a power of two (64 B .. 16 KiB): block-
+        // wise or threshold-switched fast paths change behaviour exactly there
+        if cfg.long_inputs && rng.chance(1, 40) {
+            let unit = gen_string(rng, &enabled);
+            if !unit.is_empty() {
+                let target = (1usize << (6 + rng.usize_below(9))) + rng.usize_below(5) - 2;
+                let mut s = String::new();
+                while s.len() + unit.len() <= target {
+                    s.push_str(&unit);
+                }
+                while s.len() < target {
+                    s.push('a');
+                }
+                pool.push(s);
+                continue;
+            }
+        }
         let s = match rng.below(10) {
             0..=2 => rng.pick(LITERALS).to_string(),
             3..=5 if !pool.is_empty() => {
